@@ -400,6 +400,46 @@ func c06(c *core.Ctx) {
 		c06Backward(k, gen.Msg(k.R, gen.Opt{Protected: true, AllowEmpty: true, MaxPayloads: 4}), k.Index%36)
 	})
 	c.Family("bwd-empty", 36, func(k *core.Case) { c06Backward(k, gen.Header(k.R), k.Index%36) })
+	// around the 16-bit limit of the SK payload: whatever EncodeEncrypt returns WITHOUT an error must be a well-formed
+	// protected message (lengths final, accepted by the independent peer); beyond the limit an error is the only other outcome
+	c.Family("fwd-at-limit", 18*48, func(k *core.Case) {
+		s, init, _ := cell(k.Index % 18)
+		inner := 65440 + (k.Index/18)*2 + k.R.Intn(2) // 65440..65535
+		m := gen.Header(k.R)
+		m.Payloads = []abs.Payload{{Kind: abs.PNonce, Data: gen.DataN(k.R, inner-4)}}
+		if k.R.Bool() && inner > 300 {
+			m.Payloads = []abs.Payload{{Kind: abs.PNotify, Notify: &abs.Notify{Type: 16384, Data: gen.DataN(k.R, 100)}},
+				{Kind: abs.PVendor, Data: gen.DataN(k.R, inner-4-4-4-100)}}
+		}
+		raw := libsa.RandomRaw(k.R, s)
+		ks, err := libsa.NewKey(raw)
+		if err != nil {
+			return
+		}
+		k.Eval(1)
+		wire, err, p := libProtect(m, ks, init)
+		w := M{"suite": s.Name(), "inner_octets": inner, "sender_initiator": init, "keys": raw.JSON()}
+		if p != nil {
+			k.Violate("panic", "protect-at-limit: "+p.Sig(), "panic", panicData(p, w))
+			return
+		}
+		if err != nil {
+			k.Count("at_limit_refused_with_error", 1)
+			k.Distinct(fmt.Sprintf("limit|err|%s|%d", s.Name(), inner/16))
+			return
+		}
+		um, _, _, uerr := ref.Unprotect(wire, s, raw.Dir(init))
+		if uerr != nil || !abs.Equal(m, um) {
+			w["wire_len"] = len(wire)
+			w["wire_head"] = core.Hex(wire[:48])
+			k.Violate("layout", "malformed-protected-message-returned-without-error: "+classifyErr(fmt.Errorf("%v", uerr)),
+				fmt.Sprintf("EncodeEncrypt returned %d octets and no error for %d inner octets, but the independent peer cannot unprotect it: %v", len(wire), inner, uerr), w)
+			return
+		}
+		k.Count("at_limit_protected_ok", 1)
+		k.Distinct(fmt.Sprintf("limit|ok|%s|%d", s.Name(), inner/16))
+	})
+	c.Require("at_limit_refused_with_error", "at_limit_protected_ok")
 }
 
 var _ = message.TypeSK
